@@ -31,7 +31,7 @@ Proof.
   destruct (parse_ok b) eqn:Hp; [|discriminate]. cbn [negb].
   destruct (cons_step b) eqn:Hc; [|discriminate]. cbn [negb].
   destruct (walls_step b) eqn:Hw; [|discriminate]. cbn [negb].
-  destruct (windows_panic b) eqn:Hn; [discriminate|].
+  destruct (windows_wall_missing b) eqn:Hn; [discriminate|].
   destruct (sched_step b) eqn:Hs; try discriminate.
   destruct (loads_step b) eqn:Hl; [|discriminate]. cbn [negb].
   destruct (thermostats_step b) eqn:Ht; [|discriminate]. intros _.
@@ -39,7 +39,7 @@ Proof.
   unfold parse_ok in Hp. rewrite !andb_true_iff in Hp. destruct Hp as [[_ _] Hpw].
   unfold cons_step in Hc. rewrite andb_true_iff in Hc. destruct Hc as [Hcw Hcn].
   rewrite forallb_forall in Hpw, Hcw, Hcn. unfold walls_step in Hw. rewrite forallb_forall in Hw.
-  unfold windows_panic in Hn. apply negb_false_iff in Hn. rewrite forallb_forall in Hn.
+  unfold windows_wall_missing in Hn. apply negb_false_iff in Hn. rewrite forallb_forall in Hn.
   repeat split.
   - apply forallb_forall. intros w Hin. specialize (Hpw w Hin). specialize (Hcw w Hin). specialize (Hw w Hin).
     apply andb_true_iff in Hpw. destruct Hpw as [_ Hpc]. apply andb_true_iff in Hw. destruct Hw as [Hs1 Hs2].
@@ -58,9 +58,9 @@ Qed.
 Corollary convert_rejects b : links_closed b = false -> convert b <> COk.
 Proof. intros H E. rewrite (convert_closed b E) in H. discriminate. Qed.
 
-(* a window whose wall is not among the walls crashes the converter (when everything before is fine) *)
-Theorem window_wall_missing_crashes b :
-  parse_ok b = true -> cons_step b = true -> walls_step b = true -> windows_panic b = true -> convert b = CPanic.
+(* a window whose wall is not among the walls is rejected with an error (it used to crash the converter) *)
+Theorem window_wall_missing_rejected b :
+  parse_ok b = true -> cons_step b = true -> walls_step b = true -> windows_wall_missing b = true -> convert b = CErr.
 Proof. intros A B C D. unfold convert. rewrite A, B, C, D. reflexivity. Qed.
 
 (* but the link from a space to its space / system conditions is dropped silently *)
